@@ -611,6 +611,11 @@ theorem c20_real_trig_spec : TrigSpec ℝ := fun a => by
   have := Real.sin_sq_add_cos_sq a
   nlinarith [this]
 
+/-- the hypotheses of `c20_from_to_partial` / `c20_angle_axis` are satisfiable (x axis to x axis) -/
+example : len2 (ex : V3 ℝ) ≠ 0 ∧ len2 (vadd (normalize (ex : V3 ℝ)) (normalize (ex : V3 ℝ))) ≠ 0 := by
+  rw [normalize_ex c20_real_sqrt_spec]
+  constructor <;> simp [len2, dot, vadd, ex] <;> norm_num
+
 /-- over ℝ the repaired from-to constructor meets its contract for all non-zero vectors -/
 theorem c20_from_to_repaired_full_real : FromToSpec (fromToFixed : V3 ℝ → V3 ℝ → Quat ℝ) :=
   c20_from_to_repaired_full c20_real_sqrt_spec
